@@ -58,7 +58,7 @@ fn one(line: &str, dir: &str) -> String {
     drop(tx);
     let (mut got, mut ok) = (0u64, 0u64);
     loop {
-        match rx.recv_timeout(Duration::from_secs(3)) {
+        match rx.recv_timeout(Duration::from_secs(10)) {
             Ok(r) => {
                 got += 1;
                 if r.is_ok() {
